@@ -4464,9 +4464,11 @@ impl<'a, const HAS_CR: bool> Parser<'a, HAS_CR> {
                     let lookahead = self.flow_scalar_resume_pos(self.pos);
                     // Check what follows
                     if lookahead >= self.input.len()
-                        || matches!(self.input[lookahead], b':' | b',' | b'}' | b']')
+                        || matches!(self.input[lookahead], b':' | b',' | b'}' | b']' | b'#')
                     {
-                        // Delimiter or EOF - stop key here
+                        // Delimiter, comment line, or EOF - stop key here. (A `#`
+                        // that opens a line always follows white space, so it is
+                        // a comment, as in `parse_flow_unquoted_value`.)
                         break;
                     }
                     // Continue parsing on next line
@@ -7121,6 +7123,25 @@ mod tests {
             // A line at the collection's own indent still ends the scalar.
             (b"k:\n-\n  a\n  b\n- c\n", "{\"k\":[\"a b\",\"c\"]}"),
             (b"-\n  a\n  # c\n- b\n", "[\"a\",\"b\"]"),
+        ] {
+            let index = crate::yaml::YamlIndex::build(yaml).expect("should parse");
+            assert_eq!(
+                index.root(yaml).to_json_document(),
+                expected,
+                "input: {:?}",
+                core::str::from_utf8(yaml)
+            );
+        }
+    }
+
+    /// A comment line ends a multi-line plain key in a flow mapping; it is not
+    /// a continuation line to fold into the key.
+    #[test]
+    fn flow_key_continuation_stops_at_a_comment_line() {
+        for (yaml, expected) in [
+            (&b"{ k\n# c\n}"[..], "{\"k\":null}"),
+            (b"{ k\n  # c\n, j: 1 }", "{\"k\":null,\"j\":1}"),
+            (b"{ k\n  l\n  # c\n: 1 }", "{\"k l\":1}"),
         ] {
             let index = crate::yaml::YamlIndex::build(yaml).expect("should parse");
             assert_eq!(
